@@ -40,7 +40,7 @@ RULE = (
     "{default, explicit executor} x caller context {none, scope A#1, scope + updated A#2} for "
     "asynchronous (all orders of 'release worker' vs two heartbeat steps); wrap_async (sync / "
     "async input) and traced (sync / async, inside / outside a scope) over the same call forms; "
-    "metadata (__name__, __doc__, __wrapped__) for every helper decorator under every combination of its options (138 configurations) and stacked pairs; non-trivial = the call "
+    "metadata (__name__, __doc__, __wrapped__) for every helper decorator under every combination of its options (138 configurations) and every stacked pair, also after the outer decorator had been applied to the plain function before; consecutive calls served by one pooled worker thread from callers with an empty / own context; non-trivial = the call "
     "passes keyword / variadic arguments, raises, or is made inside a scope"
 )
 ASSUMPTIONS = [
@@ -151,6 +151,12 @@ def programs(tier: str):
             yield {"family": "reuse", "kind": kind, "executor": executor}
     for how in ("copy", "second-instance"):
         yield {"family": "method-copy", "how": how}
+    import itertools as _it2
+
+    for kind in ("function", "method"):
+        for L in (2, 3):
+            for callers in _it2.product(POOLED_CALLERS, repeat=L):
+                yield {"family": "pooled", "kind": kind, "callers": list(callers)}
     for pair in (
         "traced-over-retry",
         "cache-over-retry",
@@ -161,6 +167,17 @@ def programs(tier: str):
         "asynchronous-over-retry",
     ):
         yield {"family": "meta", "decorator": "stack:" + pair}
+    # every ordered pair of helper decorators, optionally after the outer decorator had already
+    # been applied to the plain function before (its result kept alive): the stacked wrapper
+    # references the inner wrapper, not something remembered from the earlier use
+    for outer in ("retry", "cache", "traced", "throttle", "timeout", "asynchronous", "wrap_async"):
+        for inner in ("retry", "cache", "traced", "throttle", "timeout"):
+            if outer in ("asynchronous", "wrap_async") and inner in ("throttle", "timeout"):
+                continue
+            if outer == "throttle" and inner in ("cache", "throttle", "timeout"):
+                continue  # throttle accepts plain coroutine functions only (asserts): not a metadata matter
+            for pre in (False, True):
+                yield {"family": "meta", "decorator": f"stack:{outer}-over-{inner}", "pre": pre}
     for deco in ("asynchronous", "asynchronous()", "wrap_async", "traced", "traced-async", "cache", "cache()", "cache-async", "retry", "retry()", "retry-async", "throttle", "throttle()", "timeout", "asynchronous-method", "cache-method"):
         yield {"family": "meta", "decorator": deco}
     # every combination of every decorator's options ("-" = argument left out)
@@ -318,6 +335,135 @@ def _reuse(program, ch: Chooser) -> Result:
     return Result(f"reuse/{program['kind']}", True, viols, {"results": [list(r) if isinstance(r, tuple) else r for r in results], "trace": trace}, steps=3)
 
 
+class PooledGatedExecutor(ThreadPoolExecutor):
+    """ONE long-lived worker thread (like a pool of size one): jobs run in submission order, each
+    only after it was released"""
+
+    def __init__(self) -> None:
+        super().__init__(max_workers=1)
+        import queue as _q
+
+        self.jobs: "_q.Queue" = _q.Queue()
+        self.pending: list[dict] = []
+        self.count = 0
+        self.worker = threading.Thread(target=self._work, daemon=True)
+        self.worker.start()
+
+    def _work(self) -> None:
+        while True:
+            rec = self.jobs.get()
+            if rec is None:
+                return
+            rec["gate"].wait()
+            fut = rec["future"]
+            if fut.set_running_or_notify_cancel():
+                try:
+                    fut.set_result(rec["fn"]())
+                except BaseException as exc:  # noqa: BLE001
+                    fut.set_exception(exc)
+            rec["done"].set()
+
+    def submit(self, fn, /, *args, **kwargs):  # type: ignore[override]
+        import functools as _ft
+
+        rec = {"gate": threading.Event(), "done": threading.Event(), "future": CFuture(), "fn": _ft.partial(fn, *args, **kwargs), "released": False, "n": self.count}
+        self.count += 1
+        self.pending.append(rec)
+        self.jobs.put(rec)
+        return rec["future"]
+
+    def head(self):
+        for rec in self.pending:
+            if not rec["released"]:
+                return rec
+        return None
+
+    def release(self, rec: dict) -> None:
+        rec["released"] = True
+        rec["gate"].set()
+        rec["done"].wait(10)
+
+    def drain(self) -> None:
+        for rec in self.pending:
+            if not rec["released"]:
+                rec["future"].cancel()
+                self.release(rec)
+        self.jobs.put(None)
+        self.worker.join(10)
+
+
+_THREAD_VAR: "contextvars.ContextVar[str]" = __import__("contextvars").ContextVar("hv_c18_thread_var")
+
+POOLED_CALLERS = ["empty", "set", "scope"]
+
+
+def _pooled(program, ch: Chooser) -> Result:
+    """consecutive calls served by the SAME worker thread: each sees its own caller's context,
+    never what an earlier call left behind in the thread"""
+    import contextvars
+
+    viols: list[dict] = []
+    w = World(ch)
+    executor = PooledGatedExecutor()
+    w.loop.set_default_executor(executor)
+    seen: list = []
+    try:
+
+        def plain(n):
+            v = _THREAD_VAR.get("unset")
+            _THREAD_VAR.set(f"left-by-call-{n}")
+            return v
+
+        class Owner:
+            @asynchronous
+            def m(self, n):
+                v = _THREAD_VAR.get("unset")
+                _THREAD_VAR.set(f"left-by-call-{n}")
+                return v
+
+        fn = asynchronous(plain) if program["kind"] == "function" else Owner().m
+        w.extra_actions = lambda: ([Action("release", f"w{executor.head()['n']}", lambda rec=executor.head(): executor.release(rec))] if executor.head() is not None else [])
+        want: list = []
+        for n, caller in enumerate(program["callers"]):
+
+            async def call(n=n, caller=caller):
+                try:
+                    if caller == "set":
+                        _THREAD_VAR.set(f"caller-{n}")
+                        seen.append(await fn(n))
+                    elif caller == "scope":
+                        async with ctx.scope("caller"):
+                            seen.append(await fn(n))
+                    else:
+                        seen.append(await fn(n))
+                except BaseException as exc:  # noqa: BLE001
+                    seen.append(f"{type(exc).__name__}: {exc}"[:80])
+
+            want.append(f"caller-{n}" if caller == "set" else "unset")
+            t = w.loop.create_task(call(), name=f"caller{n}", context=contextvars.Context())
+            try:
+                w.run()
+            except Livelock:
+                pass
+            if not t.done():
+                viols.append(viol("termination", f"pooled/{program['kind']}", "call returns", "pending"))
+                break
+        if seen != want[: len(seen)] or len(seen) != len(want):
+            first_bad = next((i for i, (a, b) in enumerate(zip(seen, want)) if a != b), len(seen))
+            viols.append(
+                viol(
+                    "context",
+                    f"stale-thread-context/{program['kind']}/call{first_bad + 1}-from-{program['callers'][first_bad] if first_bad < len(want) else '?'}-caller",
+                    want,
+                    seen,
+                )
+            )
+        return Result(f"pooled/{program['kind']}/{len(seen)}", True, viols, {"seen": seen, "trace": w.trace}, steps=len(seen))
+    finally:
+        executor.drain()
+        w.close()
+
+
 def _method_copy(program, ch: Chooser) -> Result:
     """an asynchronous method is bound to the instance it is called on - also for a copy of an
     instance on which it had been called before"""
@@ -374,6 +520,8 @@ def execute(program, ch: Chooser) -> Result:  # noqa: C901, PLR0912, PLR0915
         return _meta(program)
     if fam == "method-copy":
         return _method_copy(program, ch)
+    if fam == "pooled":
+        return _pooled(program, ch)
     if fam == "reuse":
         return _reuse(program, ch)
     _cap.records.clear()
@@ -611,6 +759,17 @@ def _meta(program) -> Result:  # noqa: C901, PLR0912
 
             outer_name, inner_name = deco[6:].split("-over-")
             base = async_fn if outer_name in ("timeout", "throttle") or inner_name in ("timeout", "throttle") else sync_fn
+            outer_deco = {
+                "retry": lambda f: retry(limit=2)(f),
+                "cache": lambda f: cache(limit=2)(f),
+                "traced": traced,
+                "throttle": lambda f: throttle(limit=2)(f),
+                "timeout": lambda f: timeout(1)(f),
+                "asynchronous": asynchronous,
+                "wrap_async": wrap_async,
+            }[outer_name]
+            # history: the outer decorator was applied to the plain function before anything else
+            earlier = outer_deco(base) if program.get("pre") else None  # noqa: F841 - kept alive
             if inner_name == "functools-wraps":
 
                 @functools.wraps(base)
@@ -625,14 +784,9 @@ def _meta(program) -> Result:  # noqa: C901, PLR0912
                     "throttle": lambda f: throttle(limit=2)(f),
                     "timeout": lambda f: timeout(1)(f),
                 }[inner_name](base)
-            wrapped = {
-                "retry": lambda f: retry(limit=2)(f),
-                "cache": lambda f: cache(limit=2)(f),
-                "traced": traced,
-                "throttle": lambda f: throttle(limit=2)(f),
-                "timeout": lambda f: timeout(1)(f),
-                "asynchronous": asynchronous,
-            }[outer_name](inner)
+            wrapped = outer_deco(inner)
+            if program.get("pre"):
+                deco = deco + "/after-decorating-the-plain-function"
             original = inner  # the outer decorator must reference what it actually wrapped
             name = getattr(wrapped, "__name__", None)
             if name != base.__name__:
